@@ -143,6 +143,11 @@ def stm_block(s):
     """a statement rendered where the grammar wants `body`/`stm`: always a block"""
     if s[0] == "block":
         return src(s)
+    if s[0] == "bare":
+        # a body written WITHOUT braces (the grammar's `body` / `stm` may be a bare expression or statement); what
+        # follows a condition must not start with `(` (it would read as a call of the condition)
+        t = src(s[1])
+        return "{ %s }" % t if t.startswith("(") else t
     return "{ %s }" % src(s)
 
 
@@ -360,6 +365,8 @@ def sx(e):
 def as_block(s):
     """the source rendering wraps every branch / loop body in braces; the tree sent to the model
     must say the same"""
+    if s[0] == "bare":
+        return ("block", [s[1]])
     return s if s[0] == "block" else ("block", [s])
 
 
